@@ -255,7 +255,9 @@ def run_check(pid, tier, seed, workers, quiet=False):
     if agg.harness_errors:
         for msg, t in agg.harness_errors[:5]:
             print(f'HARNESS-ERROR {pid}: {msg[:3000]}\n  task={json.dumps(t, default=repr)[:500]}', flush=True)
-        return EXIT_HARNESS
+        # a violation with its replay file stands on its own (e.g. the code under test started to consume real
+        # randomness, which also trips the determinism re-run); only harness errors alone give exit 2
+        return EXIT_VIOLATION if new else EXIT_HARNESS
     return EXIT_VIOLATION if new else EXIT_OK
 
 
